@@ -180,6 +180,13 @@ Inductive out :=
         (below above : bool)
 | OErr (e : err).
 
+(* len(set(grids)) == len(grids) *)
+Fixpoint nodup_doms (l : list dom) : bool :=
+  match l with
+  | [] => true
+  | d :: r => negb (existsb (dom_eqb d) r) && nodup_doms r
+  end.
+
 Definition create (g : mdgrid) (s : st) (name : nat) (dof : option (nat * nat * nat))
            (badkey : bool) (sub intf : option (list nat)) : st * out :=
   let dof := match dof with None => (1, 0, 0) | Some d => d end in
@@ -192,6 +199,7 @@ Definition create (g : mdgrid) (s : st) (name : nat) (dof : option (nat * nat * 
                    | Some l, _ => map Sd l
                    | _, Some l => map Intf l
                    | _, _ => [] end in
+      if negb (nodup_doms grids) then (s, OErr ValueErr) else
       if existsb (fun v => Nat.eqb (vname v) name && existsb (dom_eqb (vdom v)) grids) (vars s)
       then (s, OErr KeyErr)
       else
